@@ -558,22 +558,28 @@ func (g *G) propKey(d int) (string, bool) {
 func (g *G) objectLit(d int) string {
 	n := g.intn(4, "nprops")
 	parts := []string{}
+	// V8 (≤12.4) orders the keys of a literal that mixes a spread with accessors differently from the
+	// specification ({...s, set t(v){}, x: 1} has keys a, x, t): never mix them, V8 is our reference.
+	hasSpread, hasAccessor := false, false
 	for i := 0; i < n; i++ {
 		k, _ := g.propKey(d)
 		switch g.intn(8, "propkind") {
 		case 0:
-			if g.has(FSpread) && g.has(FObjectRest) {
+			if g.has(FSpread) && g.has(FObjectRest) && !hasAccessor {
+				hasSpread = true
 				parts = append(parts, "..."+g.Expr(d))
 				continue
 			}
 		case 1:
-			if g.has(FGetters) {
+			if g.has(FGetters) && !hasSpread {
+				hasAccessor = true
 				id := g.id()
 				parts = append(parts, "get "+k+"() { log(\"get\", "+id+"); return "+g.Expr(0)+"; }")
 				continue
 			}
 		case 2:
-			if g.has(FGetters) {
+			if g.has(FGetters) && !hasSpread {
+				hasAccessor = true
 				id := g.id()
 				parts = append(parts, "set "+k+"(sv) { log(\"set\", "+id+", sv); }")
 				continue
